@@ -165,7 +165,7 @@ Lemma step_sim p st sp o :
   R (fst (fst (step qf p st o))) (fst (sstep qf sp o)) /\ snd (fst (step qf p st o)) = snd (sstep qf sp o).
 Proof.
   intros HR Hok. pose proof HR as [HI HO].
-  destruct o as [v | s mask isn sn | j | j k | j keep | j | j keep | j q | j q | i | j | i mask | j | j m q | i | i].
+  destruct o as [v | s mask isn sn | j | j ks b | j keep | j | j keep | j q | j q | i | j | i mask | j | j m q | i | i].
   - (* ONew *)
     cbn. split; [|reflexivity]. split; cbn [st_heap st_inputs st_objs sp_inputs sp_objs].
     + apply F2_snoc; [now apply inputs_ext | apply cell_ok_new].
@@ -328,6 +328,94 @@ Proof.
 Qed.
 End A.
 
+(* ------------------------------------------------------------------ effect summaries are sound *)
+Lemma read_cached_heap qf st j q : exists l, st_heap (fst (read_cached qf st j q)) = st_heap st ++ l.
+Proof.
+  unfold read_cached. destruct (nth_error (st_objs st) j) as [o|]; [|exists []; now rewrite app_nil_r].
+  destruct (assoc q (o_cache o)); [exists []; now rewrite app_nil_r|].
+  unfold halloc. cbn. eexists; reflexivity.
+Qed.
+
+Lemma values_masked_heap p st o c :
+  hget (st_heap (fst (fst (values_masked p st o)))) c <> hget (st_heap st) c -> In c (snd (values_masked p st o)).
+Proof.
+  unfold values_masked. destruct (any_true (o_mask o)); [|cbn [fst snd st_heap]; congruence].
+  destruct (p_values_masked_in_place p); cbn [fst snd st_heap]; [|congruence].
+  intros H. destruct (Nat.eq_dec (o_cell o) c) as [E|E]; [now left|].
+  rewrite hget_hset_other in H by exact E. congruence.
+Qed.
+
+Ltac sc := cbn [fst snd st_heap st_inputs st_objs e_writes eff0 bad halloc].
+Lemma effects_sound qf p st o c :
+  (c < length (st_heap st))%nat ->
+  hget (st_heap (fst (fst (step qf p st o)))) c <> hget (st_heap st) c ->
+  In c (e_writes (snd (step qf p st o))).
+Proof.
+  intros Hc.
+  destruct o as [v | s mask isn sn | j | j ks b | j keep | j | j keep | j q | j q | i | j | i mask | j | j m q | i | i];
+    cbn [step].
+  - sc. rewrite hget_app_old by exact Hc. congruence.
+  - destruct (match s with
+              | SIn i => option_map (fun c => (c, isn)) (nth_error (st_inputs st) i)
+              | SObj j => option_map (fun ob => (o_cell ob, o_native ob)) (nth_error (st_objs st) j)
+              end) as [[c0 n0]|]; [|sc; congruence].
+    destruct (p_construct_copies p); unfold halloc.
+    + rewrite hget_app_new.
+      destruct (negb (Nat.eqb (length (hget (st_heap st) c0)) (if n0 then length mask else count_false mask))).
+      * sc. rewrite hget_app_old by exact Hc. congruence.
+      * destruct n0, sn; cbn [Bool.eqb fst snd st_heap e_writes]; rewrite ?hset_app_new, ?hget_app_new;
+          cbn [fst snd st_heap e_writes]; rewrite <- ?app_assoc, ?hget_app_old by exact Hc; try congruence.
+    + destruct (negb (Nat.eqb (length (hget (st_heap st) c0)) (if n0 then length mask else count_false mask))).
+      * sc. congruence.
+      * destruct n0, sn; cbn [Bool.eqb fst snd st_heap e_writes].
+        all: try (intros H; destruct (Nat.eq_dec c0 c) as [E|E]; [now left|];
+                  rewrite ?hget_app_old in H by (rewrite ?hset_length; exact Hc);
+                  rewrite hget_hset_other in H by exact E; congruence).
+        all: rewrite ?hget_app_old by exact Hc; congruence.
+  - destruct (nth_error (st_objs st) j); sc; congruence.
+  - destruct (nth_error (st_objs st) j); [|sc; congruence]. unfold derive, halloc; sc.
+    rewrite <- app_assoc, hget_app_old by exact Hc. congruence.
+  - destruct (nth_error (st_objs st) j); [|sc; congruence]. unfold derive, halloc; sc.
+    rewrite <- app_assoc, hget_app_old by exact Hc. congruence.
+  - destruct (nth_error (st_objs st) j); [|sc; congruence]. unfold derive, halloc; sc.
+    rewrite <- app_assoc, hget_app_old by exact Hc. congruence.
+  - destruct (nth_error (st_objs st) j); [|sc; congruence]. unfold derive, halloc; sc.
+    rewrite <- app_assoc, hget_app_old by exact Hc. congruence.
+  - destruct (read_cached_heap qf st j q) as [l Hl].
+    destruct (read_cached qf st j q) as [st1 [[c1 v]|]]; cbn [fst snd st_heap st_inputs st_objs e_writes eff0 bad] in *; rewrite Hl, hget_app_old by exact Hc; congruence.
+  - destruct (nth_error (st_objs st) j); sc; congruence.
+  - destruct (nth_error (st_inputs st) i); sc; congruence.
+  - destruct (nth_error (st_objs st) j); sc; congruence.
+  - destruct (nth_error (st_inputs st) i); sc; congruence.
+  - destruct (nth_error (st_objs st) j) as [ob|]; [|sc; congruence].
+    pose proof (values_masked_heap p st ob c) as Hv.
+    destruct (values_masked p st ob) as [[st1 v] w]. cbn [fst snd st_heap st_inputs st_objs e_writes eff0 bad] in *. exact Hv.
+  - destruct (nth_error (st_objs st) j) as [ob|]; [|sc; congruence].
+    destruct (read_cached_heap qf st m q) as [l Hl].
+    destruct (read_cached qf st m q) as [st1 [[cm vm]|]]; cbn [fst] in Hl; [|sc; rewrite Hl, hget_app_old by exact Hc; congruence].
+    destruct st1 as [h1 ins1 objs1]. cbn [st_heap st_inputs st_objs] in *. subst h1.
+    assert (Hc1 : (c < length (st_heap st ++ l))%nat) by (rewrite app_length; lia).
+    destruct (any_true (o_mask ob)).
+    + destruct (p_maprecon_copies p); unfold halloc.
+      * rewrite hget_app_new, hset_app_new.
+        match goal with |- context [values_masked p ?S ob] => pose proof (values_masked_heap p S ob c) as Hv;
+          destruct (values_masked p S ob) as [[st4 v] w'] end.
+        cbn [fst snd st_heap e_writes] in *. intros H. apply in_or_app. right. apply Hv.
+        rewrite hget_app_old by exact Hc1. rewrite hget_app_old by exact Hc. exact H.
+      * match goal with |- context [values_masked p ?S ob] => pose proof (values_masked_heap p S ob c) as Hv;
+          destruct (values_masked p S ob) as [[st4 v] w'] end.
+        cbn [fst snd st_heap e_writes] in *. intros H.
+        destruct (Nat.eq_dec cm c) as [E|E]; [left; exact E|]. right. apply Hv.
+        rewrite hget_hset_other by exact E. rewrite hget_app_old by exact Hc. exact H.
+    + match goal with |- context [values_masked p ?S ob] => pose proof (values_masked_heap p S ob c) as Hv;
+        destruct (values_masked p S ob) as [[st4 v] w'] end.
+      cbn [fst snd st_heap e_writes app] in *. intros H. apply Hv. rewrite hget_app_old by exact Hc. exact H.
+  - destruct (nth_error (st_inputs st) i) as [c1|]; [|sc; congruence].
+    destruct (p_interf_mutates_settings p); sc; [|congruence].
+    intros H. destruct (Nat.eq_dec c1 c) as [E|E]; [now left|]. rewrite hget_hset_other in H by exact E. congruence.
+  - destruct (nth_error (st_inputs st) i); sc; congruence.
+Qed.
+
 (* ------------------------------------------------------------------ histories *)
 Section Hist.
 Context (qf : qfn).
@@ -361,7 +449,7 @@ Proof.
   destruct p as [a b c d e f]. unfold safe; cbn [p_construct_copies p_derive_keeps_cache p_trim_keeps_cache
     p_values_masked_in_place p_maprecon_copies p_interf_mutates_settings].
   intros H. destruct a, b, c, d, e, f; try discriminate. clear H.
-  destruct o as [v | s mask isn sn | j | j k | j keep | j | j keep | j q | j q | i | j | i mask | j | j m q | i | i];
+  destruct o as [v | s mask isn sn | j | j ks b | j keep | j | j keep | j q | j q | i | j | i mask | j | j m q | i | i];
     cbn [step p_construct_copies p_derive_keeps_cache p_trim_keeps_cache
          p_values_masked_in_place p_maprecon_copies p_interf_mutates_settings].
   - reflexivity.
@@ -403,10 +491,10 @@ Qed.
 Lemma safe_implies_purity p ops : safe p = true -> observations qf p ops = spec_observations qf ops.
 Proof. intros Hs. apply discipline_implies_purity. apply safe_run_ok; assumption. Qed.
 
-(* the code of today outside the recorded finding classes *)
+(* the code of today outside the recorded finding class *)
 Lemma faithful_step_ok st o : finding_class st o = false -> step_ok (snd (step qf faithful st o)) = true.
 Proof.
-  destruct o as [v | s mask isn sn | j | j k | j keep | j | j keep | j q | j q | i | j | i mask | j | j m q | i | i];
+  destruct o as [v | s mask isn sn | j | j ks b | j keep | j | j keep | j q | j q | i | j | i mask | j | j m q | i | i];
     cbn [step finding_class faithful p_construct_copies p_derive_keeps_cache p_trim_keeps_cache
          p_values_masked_in_place p_maprecon_copies p_interf_mutates_settings]; intros Hf; try discriminate.
   - reflexivity.
@@ -418,13 +506,10 @@ Proof.
     destruct (negb (Nat.eqb (length (hget (st_heap st) c0)) (if n0 then length mask else count_false mask))); [reflexivity|].
     destruct n0, sn; unfold step_ok; cbn; rewrite ?Nat.leb_refl; reflexivity.
   - destruct (nth_error (st_objs st) j); reflexivity.
-  - unfold cache_nonempty in Hf. destruct (nth_error (st_objs st) j) as [ob|]; [|reflexivity].
-    unfold derive, halloc, step_ok; cbn. now rewrite Hf.
-  - unfold cache_nonempty in Hf. destruct (nth_error (st_objs st) j) as [ob|]; [|reflexivity].
-    unfold derive, halloc, step_ok; cbn. now rewrite Hf.
-  - destruct (nth_error (st_objs st) j) as [ob|]; [|reflexivity]. unfold derive, halloc, step_ok; cbn. reflexivity.
-  - unfold cache_nonempty in Hf. destruct (nth_error (st_objs st) j) as [ob|]; [|reflexivity].
-    unfold derive, halloc, step_ok; cbn. now rewrite Hf.
+  - destruct (nth_error (st_objs st) j); reflexivity.
+  - destruct (nth_error (st_objs st) j); reflexivity.
+  - destruct (nth_error (st_objs st) j); reflexivity.
+  - destruct (nth_error (st_objs st) j); reflexivity.
   - destruct (read_cached qf st j q) as [st1 [[c v]|]]; reflexivity.
   - destruct (nth_error (st_objs st) j); reflexivity.
   - destruct (nth_error (st_inputs st) i); reflexivity.
@@ -435,6 +520,7 @@ Proof.
   - unfold mask_any in Hf. destruct (nth_error (st_objs st) j) as [ob|]; [|reflexivity].
     destruct (read_cached qf st m q) as [st1 [[cm vm]|]]; [|reflexivity].
     unfold values_masked, halloc; cbn. rewrite Hf. reflexivity.
+  - destruct (nth_error (st_inputs st) i); reflexivity.
   - destruct (nth_error (st_inputs st) i); reflexivity.
 Qed.
 
@@ -570,6 +656,39 @@ Proof.
   destruct (step_sim qf p _ _ (ORead j q) R1 (safe_step_ok p _ _ Hs)) as [_ ->].
   cbn. destruct (nth_error (sp_objs (spec_final qf h)) j); reflexivity.
 Qed.
+
+Lemma srun_length h : forall sp, length (fst (srun qf sp h)) = length h.
+Proof.
+  induction h as [|x t IH]; intros sp; cbn; [reflexivity|]. destruct (sstep qf sp x) as [sp1 ob]. specialize (IH sp1).
+  destruct (srun qf sp1 t); cbn in *; now rewrite IH.
+Qed.
+Lemma srun_last o h : forall sp, last (fst (srun qf sp (h ++ [o]))) bad = snd (sstep qf (snd (srun qf sp h)) o).
+Proof.
+  induction h as [|x t IH]; intros sp; cbn.
+  - destruct (sstep qf sp o) as [sp1 ob]. reflexivity.
+  - destruct (sstep qf sp x) as [sp1 ob]. specialize (IH sp1).
+    destruct (srun qf sp1 (t ++ [o])) as [l sp2] eqn:E1. destruct (srun qf sp1 t) as [l' sp2'] eqn:E2. cbn in *.
+    rewrite <- IH. destruct l; [|reflexivity].
+    exfalso. pose proof (srun_length (t ++ [o]) sp1) as Hx. rewrite E1 in Hx. cbn in Hx. rewrite app_length in Hx.
+    cbn in Hx. lia.
+Qed.
+
+Lemma faithful_inputs_never_modified ops :
+  avoids_findings qf ops = true ->
+  map (hget (st_heap (final qf faithful ops))) (st_inputs (final qf faithful ops)) = news ops.
+Proof. intros Ha. apply inputs_never_modified. now apply avoids_run_ok. Qed.
+
+Lemma read_is_pure_function_faithful h j q :
+  avoids_findings qf (h ++ [ORead j q]) = true ->
+  last (observations qf faithful (h ++ [ORead j q])) bad =
+  match nth_error (sp_objs (spec_final qf h)) j with
+  | Some so => Ok (qf q (so_mask so) (so_val so))
+  | None => bad
+  end.
+Proof.
+  intros Ha. rewrite (faithful_pure_outside_findings _ Ha). unfold spec_observations, spec_final.
+  rewrite srun_last. cbn. destruct (nth_error (sp_objs (snd (srun qf sst0 h))) j); reflexivity.
+Qed.
 End Hist.
 
 (* ------------------------------------------------------------------ refutations for PART A (concrete histories) *)
@@ -577,21 +696,25 @@ Definition qf_sum : qfn := fun q m a => [fold_right Z.add 0%Z a; Z.of_nat q].
 Local Open Scope Z_scope.
 Definition mask3 := [false; true; false].
 
-(* D8 (present): MapperValued.values_masked zeroes the caller's `values` *)
+(* D8 (present, known finding): MapperValued.values_masked zeroes the caller's `values` *)
 Definition hist_D8 : list op := [ONew [5; 6; 7]; OValued 0 mask3; OValuesMasked 0; OPeekIn 0].
-(* D10 (present): is_uniform / amplitudes read, then x * 2 reports the cached value of x *)
-Definition hist_D10 : list op := [ONew [1; 2; 3]; OConstruct (SIn 0) [false; false; false] false false; ORead 0 1; OArith 0 2; ORead 1 1].
-(* D11 (present): grids read, then the trimmed dataset reports the untrimmed grids *)
+(* the policies of the seeded reverts of one repair each *)
+Definition policy_D7 : policy := mkPolicy false false false true true false.
+Definition policy_D9 : policy := mkPolicy true false false true false false.
+Definition policy_D10 : policy := mkPolicy true true false true true false.
+Definition policy_D11 : policy := mkPolicy true false true true true false.
+Definition policy_D12 : policy := mkPolicy true false false true true true.
+(* D10 (repaired): is_uniform / amplitudes read, then x * 2 reported the cached value of x *)
+Definition hist_D10 : list op := [ONew [1; 2; 3]; OConstruct (SIn 0) [false; false; false] false false; ORead 0 1; OArith 0 [2] 0; ORead 1 1].
+(* D11 (repaired): grids read, then the trimmed dataset reported the untrimmed grids *)
 Definition hist_D11 : list op :=
   [ONew [1; 2; 3; 4]; OConstruct (SIn 0) [false; false; false; false] true true; OAlias 0; ORead 1 7;
    OTrim 1 [false; true; true; false]; ORead 2 7].
-(* D12 (present): an interferometer inversion flips use_w_tilde on the settings object it was given *)
+(* D12 (repaired): an interferometer inversion flipped use_w_tilde on the settings object it was given *)
 Definition hist_D12 : list op := [ONew [1]; OImaging 0; OInterf 0; OImaging 0].
-(* D7 (repaired; policy of the seeded revert): Grid2D(values=native) zeroes the caller's array *)
-Definition policy_D7 : policy := mkPolicy false true true true true true.
+(* D7 (repaired): Grid2D(values=native) zeroed the caller's array *)
 Definition hist_D7 : list op := [ONew [5; 6; 7]; OConstruct (SIn 0) mask3 true false; OPeekIn 0].
-(* D9 (repaired; policy of the seeded revert): mapped_reconstructed_image_from zeroes the cached mapping matrix *)
-Definition policy_D9 : policy := mkPolicy true true true true false true.
+(* D9 (repaired): mapped_reconstructed_image_from zeroed the cached mapping matrix *)
 Definition qf_mm : qfn := fun q m a => [1; 0; 0; 0; 1; 0; 0; 0; 1].
 Definition hist_D9 : list op :=
   [ONew [1; 2; 3]; OConstruct (SIn 0) [false; false; false] false false; ONew [5; 6; 7]; OValued 1 mask3;
@@ -600,23 +723,26 @@ Definition hist_D9 : list op :=
 Lemma purity_refuted_D8 : observations qf_sum faithful hist_D8 <> spec_observations qf_sum hist_D8
   /\ map (hget (st_heap (final qf_sum faithful hist_D8))) (st_inputs (final qf_sum faithful hist_D8)) <> news hist_D8.
 Proof. split; vm_compute; discriminate. Qed.
-Lemma purity_refuted_D10 : observations qf_sum faithful hist_D10 <> spec_observations qf_sum hist_D10.
+Lemma purity_refuted_D10_revert : observations qf_sum policy_D10 hist_D10 <> spec_observations qf_sum hist_D10.
 Proof. vm_compute; discriminate. Qed.
-Lemma purity_refuted_D11 : observations qf_sum faithful hist_D11 <> spec_observations qf_sum hist_D11.
+Lemma purity_refuted_D11_revert : observations qf_sum policy_D11 hist_D11 <> spec_observations qf_sum hist_D11.
 Proof. vm_compute; discriminate. Qed.
-Lemma purity_refuted_D12 : observations qf_sum faithful hist_D12 <> spec_observations qf_sum hist_D12
-  /\ map (hget (st_heap (final qf_sum faithful hist_D12))) (st_inputs (final qf_sum faithful hist_D12)) <> news hist_D12.
+Lemma purity_refuted_D12_revert : observations qf_sum policy_D12 hist_D12 <> spec_observations qf_sum hist_D12
+  /\ map (hget (st_heap (final qf_sum policy_D12 hist_D12))) (st_inputs (final qf_sum policy_D12 hist_D12)) <> news hist_D12.
 Proof. split; vm_compute; discriminate. Qed.
 Lemma purity_refuted_D7_revert : observations qf_sum policy_D7 hist_D7 <> spec_observations qf_sum hist_D7.
 Proof. vm_compute; discriminate. Qed.
 Lemma purity_refuted_D9_revert : observations qf_mm policy_D9 hist_D9 <> spec_observations qf_mm hist_D9.
 Proof. vm_compute; discriminate. Qed.
-(* the same histories are in the finding classes, and the repaired sites are not *)
-Lemma refutations_are_in_finding_classes :
-  avoids_findings qf_sum hist_D8 = false /\ avoids_findings qf_sum hist_D10 = false /\
-  avoids_findings qf_sum hist_D11 = false /\ avoids_findings qf_sum hist_D12 = false /\
-  avoids_findings qf_sum hist_D7 = true /\ run_ok qf_sum faithful hist_D7 = true /\
-  observations qf_sum faithful hist_D7 = spec_observations qf_sum hist_D7.
+(* the D8 history is in the finding class; the histories of the repaired sites are outside it and pure today *)
+Lemma refutations_and_finding_class :
+  avoids_findings qf_sum hist_D8 = false /\
+  avoids_findings qf_sum hist_D7 = true /\ avoids_findings qf_mm hist_D9 = false /\
+  avoids_findings qf_sum hist_D10 = true /\ avoids_findings qf_sum hist_D11 = true /\ avoids_findings qf_sum hist_D12 = true /\
+  observations qf_sum faithful hist_D7 = spec_observations qf_sum hist_D7 /\
+  observations qf_sum faithful hist_D10 = spec_observations qf_sum hist_D10 /\
+  observations qf_sum faithful hist_D11 = spec_observations qf_sum hist_D11 /\
+  observations qf_sum faithful hist_D12 = spec_observations qf_sum hist_D12.
 Proof. vm_compute. repeat split. Qed.
 Local Close Scope Z_scope.
 
